@@ -1,10 +1,51 @@
 (* C16 — property theorems.  Only statements, each closed by [exact], each followed by
-   Print Assumptions. *)
+   Print Assumptions.  All are about the executable model (Model.Lines) that the correspondence
+   check compares bit for bit with draw_line / get_line_pts, or about the boolean checker
+   (Spec.Lines.line_ok / batch_ok) that is also run on the implementation's own output. *)
 From Coq Require Import ZArith List Bool.
-From Centro Require Import Proofs.Bres.
+From Centro Require Import Model.Lines Spec.Lines Proofs.Bres Proofs.LinesScalar Proofs.LinesVector.
+Import ListNotations.
 Open Scope Z_scope.
 
+(* half-pixel bound of the normalised remainder loop, all D >= d >= 0, all k *)
 Theorem C16_line_error : forall D d k, 0 <= d <= D -> 0 < D ->
   let y := fst (run D d k (init D d)) in - D < 2 * (D * y - d * Z.of_nat k) <= D.
 Proof. exact line_error. Qed.
 Print Assumptions C16_line_error.
+
+(* the boolean checker means the declarative spec (end points, length, unit steps on the major
+   axis, minor axis within half a pixel and moving by 0 or one step towards the end) *)
+Theorem C16_line_ok_sound : forall l pts, line_ok l pts = true -> LineSpec l pts.
+Proof. exact line_ok_sound. Qed.
+Print Assumptions C16_line_ok_sound.
+
+(* scalar rasteriser: for ALL end points the loop terminates within its fuel and emits a
+   sequence the checker accepts, hence one meeting LineSpec *)
+Theorem C16_draw_line_correct : forall y0 x0 y1 x1,
+  exists pts, draw_line_pts y0 x0 y1 x1 = Some pts /\ LineSpec ((y0, x0), (y1, x1)) pts.
+Proof. exact draw_line_correct. Qed.
+Print Assumptions C16_draw_line_correct.
+
+Theorem C16_draw_line_checker : forall y0 x0 y1 x1,
+  exists pts, draw_line_pts y0 x0 y1 x1 = Some pts /\ line_ok ((y0, x0), (y1, x1)) pts = true.
+Proof. exact draw_line_spec. Qed.
+Print Assumptions C16_draw_line_checker.
+
+(* vectorised rasteriser: for EVERY batch, counts/index are the lengths and their exclusive
+   cumulative sums, and the block of every line is exactly the scalar sequence of that line
+   alone (lines are independent of each other, of batch order and of which pass handles them;
+   exact diagonals and zero-length lines included) *)
+Theorem C16_vector_eq_scalar : forall ls,
+  let '(index, counts, pts) := get_line_pts ls in
+  counts = map l_count ls /\ index = indexes 0 counts /\
+  Z.of_nat (length pts) = fold_right Z.add 0 counts /\
+  forall l ix, In (l, ix) (combine ls index) ->
+    draw_line_pts (fst (fst l)) (snd (fst l)) (fst (snd l)) (snd (snd l))
+    = Some (slice (Z.to_nat ix) (Z.to_nat (l_count l)) pts).
+Proof. exact vector_eq_scalar. Qed.
+Print Assumptions C16_vector_eq_scalar.
+
+Theorem C16_batch_checker : forall ls,
+  let '(index, counts, pts) := get_line_pts ls in batch_ok ls index counts pts 0 = true.
+Proof. exact get_line_pts_batch_ok. Qed.
+Print Assumptions C16_batch_checker.
